@@ -788,5 +788,25 @@ pub fn c13_sweep(tier: Tier, rebuild: u32) -> (Acc, Value) {
     });
     let nfields = fields.evals;
     total.merge(fields);
-    (total, json!({"engine": "E-sweep", "flavors": ["String", "Cow::Owned", "Cow::Borrowed", "SmallString"], "scalar_type_cases": scalars, "ascii_pair_types": npairs, "short_type_alphabet": alphabet, "short_type_max_len": n, "short_type_cases": nshort, "field_pair_cases": nfields}))
+    // names that mean something to the crate itself: the well-known package types in all 2^len letter
+    // cases, one-edit neighbours, other ecosystems - as plain type strings of the type-agnostic API
+    let mut named: Vec<String> = Vec::new();
+    for name in R::KNOWN_TYPES {
+        for mask in 0..(1u32 << name.len()) {
+            named.push(name.chars().enumerate().map(|(j, c)| if mask & (1 << j) != 0 { c.to_ascii_uppercase() } else { c }).collect());
+        }
+        named.push(format!("{name}x"));
+        named.push(format!("{}-{name}", name.to_ascii_uppercase()));
+        named.push(name[1..].to_ascii_uppercase());
+    }
+    for other in ["Generic", "GitHub", "docker", "Deb", "RPM", "composer", "Hex", "conan", "Swift", "pub", "OCI", "cran", "Hackage", "bitbucket", "alpm", "apk", "conda", "cocoapods", "huggingface", "mlflow", "qpkg", "swid", "bitnami"] {
+        named.push(other.to_owned());
+    }
+    let named_acc = par_items(named.len(), threads(), |i, acc| {
+        c13_flavor_case(&rich(&named[i]), rebuild, acc);
+        c13_flavor_case(&spec_with(&named[i], 1, "A_b.C"), rebuild, acc);
+    });
+    let nnamed = named_acc.evals;
+    total.merge(named_acc);
+    (total, json!({"engine": "E-sweep", "flavors": ["String", "Cow::Owned", "Cow::Borrowed", "SmallString"], "well_known_and_other_type_names": nnamed, "scalar_type_cases": scalars, "ascii_pair_types": npairs, "short_type_alphabet": alphabet, "short_type_max_len": n, "short_type_cases": nshort, "field_pair_cases": nfields}))
 }
